@@ -1404,8 +1404,12 @@ def gen_theme_cases(ctx):
             R, C = rng.randint(3, 6), rng.randint(3, 6)
             dt = rng.choice(['float64', 'float64', 'int64'])
             fam = rng.choice(['forest', 'checker', 'spike', 'plateau'])
-            yield tag(mk_case(rng, fam, R, C, rng.randrange(R), rng.randrange(C), res=rng.choice([(1.0, 1.0), (2.0, -1.0)]),
-                              dtype=dt, **kw), 'scalar-' + label, **keys)
+            vr, vc = rng.randrange(R), rng.randrange(C)
+            case = mk_case(rng, fam, R, C, vr, vc, res=rng.choice([(1.0, 1.0), (2.0, -1.0)]), dtype=dt, **kw)
+            if keys.get('xy_type', '').startswith('int'):      # integer observer coordinates: integral coordinate values
+                case['ys'] = [float(math.floor(v)) for v in case['ys']]
+                case['x'], case['y'] = case['xs'][vc], case['ys'][vr]
+            yield tag(case, 'scalar-' + label, **keys)
     # 2b. observer / target heights that are NOT exact in the scalar's own type, on inexact terrain: the heights are the
     #     float32 values the caller passed; sums must be formed in double precision
     for rep in range(2 if quick else 20):
